@@ -4,9 +4,9 @@ CONSTANTS
   SameAddr = FALSE
   Writers = {1}
   Q = 100
-  InitHead = 9
-  MaxR = 11
-  Froms = {7}
+  InitHead = 10
+  MaxR = 12
+  Froms = {1, 8}
   Backend = "mem"
   Buf = 10
   Remap = FALSE
